@@ -278,7 +278,7 @@ C["C09"]["harnesses"] += [
 # clean): they stay in the harness files and can be run with bin/gosym directly.
 NOT_RUN_CLEAN = {"ZZAdversary3", "ZZSectionRW3", "ZZPathsConfined2", "ZZReaderFirst", "ZZMessageTwo", "ZZPickerSeq4",
                  "ZZPickerSequential4", "ZZPickerRich2", "ZZHonestPiece", "ZZMetadataAdopt5", "ZZWriterQueueCap6",
-                 "ZZStreeExact3", "ZZDialAdmission5", "ZZAddrListSeq5", "ZZPickerWebseed4", "ZZRamBalance2"}
+                 "ZZStreeExact3", "ZZAddrListSeq5", "ZZPickerWebseed4", "ZZRamBalance2"}
 for pid, spec in C.items():
     spec["harnesses"] = [h for h in spec["harnesses"] if h["fn"] not in NOT_RUN_CLEAN]
     seen = set()
